@@ -13,12 +13,12 @@ def scenario(c, rnd):
     oh = [('Cache-Control', 'max-age=100'), ('Last-Modified', '$DATE%+d' % LM), ('X-Verif-Gen', '1')]
     if p['etag']:
         oh.append(('ETag', ETAG[p['etag']]))
-    oabs = dict(etag=p['etag'], gen=1)
+    oabs = dict(etag=p['etag'], gen=1, multi=[])
     origin = {'status': 200, 'hdrs': oh, 'blen': rnd.choice([10, 3000]), 'abs': oabs}
     plain = dict(inm=[], ims='none', ifm=0)
     steps = [{'op': 'req', 'id': 1, 'abs': plain, 'origin': origin}]
-    if p['shape'] == 'cached':
-        rh = []
+    rh = []
+    if p['shape'] in ('cached', 'reval304c'):
         inm = sorted(p['inm'])
         if inm:
             vals = [ETAG[e] for e in inm]
@@ -29,17 +29,21 @@ def scenario(c, rnd):
             rh.append(('If-Modified-Since', '$DATE%+d' % d))
         if p['ifm']:
             rh.append(('If-Match', ETAG[p['ifm']]))
-        steps.append({'op': 'req', 'id': 2, 'hdrs': rh, 'abs': dict(inm=inm, ims=p['ims'], ifm=p['ifm']), 'origin': origin})
+    cabs = dict(inm=sorted(p['inm']), ims=p['ims'], ifm=p['ifm'])
+    if p['shape'] == 'cached':
+        steps.append({'op': 'req', 'id': 2, 'hdrs': rh, 'abs': cabs, 'origin': origin})
     else:
         o2 = dict(origin)
-        if p['shape'] == 'reval304':
-            o2['on_cond'] = {'status': 304, 'hdrs': [('Cache-Control', 'max-age=1000'), ('X-Verif-Gen', '2')] + ([('ETag', ETAG[p['etag']])] if p['etag'] else []),
-                             'abs': dict(etag=p['etag'], gen=2)}
+        if p['shape'] in ('reval304', 'reval304c'):
+            o2['on_cond'] = {'status': 304, 'hdrs': [('Cache-Control', 'max-age=1000'), ('X-Verif-Multi', '1'), ('X-Verif-Gen', '2'), ('X-Verif-Multi', '2'), ('Cache-Control', 'public')]
+                             + ([('ETag', ETAG[p['etag']])] if p['etag'] else []) + [('X-Verif-Multi', '3')],
+                             'abs': dict(etag=p['etag'], gen=2, multi=[1, 2, 3]),
+                             'require': {'etag': ETAG.get(p['etag']), 'lm': LM}}
         else:
             o2['hdrs'] = [h for h in oh if h[0] != 'X-Verif-Gen'] + [('X-Verif-Gen', '3')]
-            o2['abs'] = dict(etag=p['etag'], gen=3)
+            o2['abs'] = dict(etag=p['etag'], gen=3, multi=[])
         steps += [{'op': 'clock', 't': 200},
-                  {'op': 'req', 'id': 2, 'abs': plain, 'origin': o2},
+                  {'op': 'req', 'id': 2, 'hdrs': rh if p['shape'] == 'reval304c' else [], 'abs': cabs if p['shape'] == 'reval304c' else plain, 'origin': o2},
                   {'op': 'req', 'id': 3, 'abs': plain, 'origin': o2},
                   {'op': 'clock', 't': 400},
                   {'op': 'req', 'id': 4, 'abs': plain, 'origin': o2}]
@@ -67,7 +71,7 @@ def run(ctx):
     nd = 0
     st = {}
     for s, ev in out:
-        if s['par']['shape'] != 'cached':
+        if s['par']['shape'] not in ('cached',):
             continue
         got = [e for e in ev if e['e'] == 'CResp' and e['id'] == 2][0]['status']
         st[got] = st.get(got, 0) + 1
